@@ -503,7 +503,8 @@ func c04Natives(c *Ctx) error {
 	res.Sample(map[string]interface{}{"natives_helpers": names, "sites": len(sites), "capture_patterns": c04CapturePatterns})
 	res.Distribution["natives:helpers"] = len(c04Mirrors)
 	res.Distribution["natives:sites"] = len(sites)
-	return nil
+	// the kinds target, generated filters over the API, Do functions with several DoVar values alive (c04_api.go)
+	return c04API(c)
 }
 
 func atoiOr(s string, d int) int {
